@@ -530,6 +530,59 @@ fn astronomic_populations(r: &mut Report) {
     }
 }
 
+struct CountingMaker { calls: Arc<AtomicUsize>, fail_from: usize }
+impl Composable for CountingMaker {}
+impl<'a> Operator<&'a Vec<u32>> for CountingMaker {
+    type Output = u32;
+    type Error = ProbeErr;
+    fn apply<R: Rng + ?Sized>(&self, pop: &'a Vec<u32>, _rng: &mut R) -> Result<u32, ProbeErr> {
+        let k = self.calls.fetch_add(1, Ordering::SeqCst);
+        if k >= self.fail_from { return Err(ProbeErr(k)); }
+        Ok((pop.len() as u32).wrapping_add(k as u32 % 7))
+    }
+}
+
+/// Large populations (around and beyond 2^16 and 2^17 individuals; cheap individuals, cheap child maker): as many
+/// children as individuals - counted -, a failure late in the step (serial: at an exact position beyond 2^16) is
+/// reported and leaves the population untouched.  Serial and under two pools.  Model-free.
+fn large_population_steps(r: &mut Report) {
+    for n in [65_535usize, 65_536, 65_537, 100_003, 131_073] {
+        for mode in [0usize, 3, 6] {
+            let label = if mode == 0 { "serial".to_string() } else { format!("pool of {} threads", pools()[mode - 1].0) };
+            // (a) no failure
+            let calls = Arc::new(AtomicUsize::new(0));
+            let mut gen = Generation::new(CountingMaker { calls: calls.clone(), fail_from: usize::MAX }, vec![0u32; n]);
+            let res = std::panic::catch_unwind(std::panic::AssertUnwindSafe(|| if mode == 0 { gen.serial_next() } else { pools()[mode - 1].1.install(|| gen.par_next()) }));
+            r.case(&format!("large population {n} {label}"), true);
+            r.hit("population beyond 2^16 (oracle only)");
+            let made = calls.load(Ordering::SeqCst);
+            let bad = match res {
+                Err(_) => Some("panicked".to_string()),
+                Ok(Err(e)) => Some(format!("failed at call {}", e.0)),
+                Ok(Ok(())) => if gen.population().len() != n || made != n { Some(format!("{} individuals afterwards, child maker applied {made} times", gen.population().len())) }
+                              else if gen.population().iter().any(|c| *c < n as u32) { Some("an individual of the old population is still there".to_string()) } else { None },
+            };
+            if let Some(b) = bad {
+                r.violate(json!({"case": format!("generation step over {n} individuals, child maker cannot fail, {label}"), "real": b,
+                    "what": "a step replaces the population by exactly as many fresh children as it had individuals"}));
+            }
+            // (b) the child made last fails (serial: exactly that one; parallel: everything from that call number on)
+            let calls = Arc::new(AtomicUsize::new(0));
+            let mut gen = Generation::new(CountingMaker { calls: calls.clone(), fail_from: n - 1 }, vec![0u32; n]);
+            let res = std::panic::catch_unwind(std::panic::AssertUnwindSafe(|| if mode == 0 { gen.serial_next() } else { pools()[mode - 1].1.install(|| gen.par_next()) }));
+            let bad = match res {
+                Err(_) => Some("panicked".to_string()),
+                Ok(Ok(())) => Some(format!("succeeded although the child maker failed at call {} (applied {} times)", n - 1, calls.load(Ordering::SeqCst))),
+                Ok(Err(_)) => if gen.population().len() != n || gen.population().iter().any(|c| *c != 0) { Some("the population was changed by a failed step".to_string()) } else { None },
+            };
+            if let Some(b) = bad {
+                r.violate(json!({"case": format!("generation step over {n} individuals, the child maker fails from its call number {} on, {label}", n - 1), "real": b,
+                    "what": "a failed step returns the child maker's error and leaves the population as it was"}));
+            }
+        }
+    }
+}
+
 /// Child makers assembled from the library's own parts, as its examples do (`Select . apply_twice . then_map(GenomeExtractor) .
 /// then(Recombine) . then(Mutate) . wrap::<GenomeScorer>`), stepped serially and under pools.  None of these pipelines can fail
 /// on a non-empty population whose individuals carry the configured number of results, so every step must be `Ok`, keep the
@@ -622,7 +675,7 @@ pub fn run(cfg: &Cfg) -> Report {
         let c = gen_case(&mut g, thorough, i, n_exh, &exh);
         run_case(d, r, &c, &mut g, i);
     });
-    if mutant().is_empty() { set_population_scenarios(&mut rep, seed); astronomic_populations(&mut rep); library_pipeline_scenarios(&mut rep, seed); }
+    if mutant().is_empty() { set_population_scenarios(&mut rep, seed); astronomic_populations(&mut rep); large_population_steps(&mut rep); library_pipeline_scenarios(&mut rep, seed); }
     if !mutant().is_empty() { rep.notes.push(format!("SELF-TEST: real Generation replaced by mutant `{}`", mutant())); }
     rep.exhaustive = true;
     rep.notes.push(format!("exhaustive scope: population sizes 0..=16 x every failing call position 0..n (and none) x (serial, rayon pools of 1,2,3,4,8,16 threads) x {reps} repeats = {n_exh} cases; seeded random: {n_rand} cases of 1-3 consecutive steps"));
